@@ -18,7 +18,7 @@ CHECKS = {
         category="model_checking",
         technique="TLC model checking of View.tla against SbeImage.tla (StepRefines, EncodeRefines, MarginsIntact) + replay of every encode transition into sbeppc-generated accessors",
         text="The operational layer (addresses derived from bytes read in the buffer) is model-checked against the denotational SBE image for every explored (schema, message, shape); "
-             "every transition of the in-order encoding script is replayed on the real generated classes: pre-buffer injected, real header filler / setter / group header / data assign called, whole region incl. margins compared.",
+             "every transition of the in-order encoding script is replayed on the real generated classes: pre-buffer injected, real header filler / setter / group header / data assignment (through every API form ViewEmit.tla DataForms lists: assign_range, assign, resize+set, push_back, insert, clear, assign_string, ...) called, whole region incl. margins compared.",
         note="Scope: schema catalogue (tools/catalogue.py: all primitives, named/optional/array/enum/set/composite/ref/constant members, custom offsets, explicit blockLength, nested groups, data, 9 header layouts, LE+BE) x seeded shapes; trusts TLC, compilers, little-endian host.",
         design="5/C01"),
     "C02": dict(
@@ -81,7 +81,7 @@ CHECKS = {
     "C10": dict(
         category="model_checking",
         technique="TLC model checking of Checked.tla (Touched/Req/Pre footprints from the operational layer, outcome relation) + replay of every (image, view length n, operation) vector in checked builds with guard pages on both sides",
-        text="Every accessor kind (leaf get/set, composite/array views and 11 array ops, header access/fill, group size/resize/begin/end/[]/front/back/iterator steps, nested iteration, 25 data operations, size_bytes, visit, five cursor wrappers) x view lengths n x hostile header variants: "
+        text="Every accessor kind (leaf get/set, composite/array views and 11 array ops, header access/fill, group size/resize/begin/end/[]/front/back/iterator steps, nested iteration, 25 data operations incl. element counts beyond the length type, size_bytes, visit, five cursor wrappers) x view lengths n x hostile header variants: "
              "must_assert / must_ok / either from the spec; violations are silent out-of-view access (guard fault without handler) and spurious handler calls.",
         note="Where the documentation is silent about whole-object checks the spec allows both outcomes. Observation (not alarmed): assign_range/assign(first,last) of <data> copy before the size check fires.",
         design="5/C10, Appendix B"),
@@ -101,7 +101,7 @@ CHECKS = {
     "C08": dict(
         category="model_checking",
         technique="TLC model checking of Rules.tla/SchemaGen.tla (Break breaks the named rule, Boundary stays valid, Valid => NoOverlap /\\ MembersInsideBlock) + every TLC-generated schema mutant run through the real sbeppc",
-        text="25 named rules; every single rule-breaking edit and nearest valid edit at every applicable position of 6 (quick) / 21 (thorough) base schemas; verdict from TLC evaluating Valid on the mutated record vs exit status, located diagnostic, empty output dir of the real sbeppc; plus the repository's error corpus.",
+        text="25 named rules; every single rule-breaking edit and nearest valid edit at every applicable position of 6 (quick) / 21 (thorough) base schemas; verdict from TLC evaluating Valid on the mutated record vs exit status, located diagnostic, empty output dir of the real sbeppc; the states about names and references are additionally distributed over files (Files.tla: 11 xi:include plans, SplitKeepsVerdict model-checked) and must get the same verdict; plus the repository's error corpus.",
         note="Trusts TLC; decimal-string representability; references written in the exact case of the definition.",
         design="5/C08"),
     "C18": dict(
